@@ -81,6 +81,7 @@ def _rules():
             lambda R, c, rid: preds.rule(R, c, rid, ["item_contains", "slice_contains_id", "blockrange_contains"]),
             lambda R, c, rid: accessors.range_accessors(R, c, rid),
             lambda R, c, rid: accessors.binary_searches(R, c, rid),
+            lambda R, c, rid: accessors.identity_table(R, c, rid),
         ],
         "content": [
             lambda R, c, rid: shared.content_tables(R, c, rid),
